@@ -121,6 +121,22 @@ def _models(draw, stratum):
             if i == bare:
                 m["species"] = []
             ms.append(m)
+    elif stratum == "fs_same_entries":
+        # Finnis-Sinclair models over the same two elements whose [EAM-Density] (and one [Pair]) entries read the
+        # same in every model - 'Al->Cu : densf 3' - while the formula called densf differs from model to model
+        V = lambda nm: {"o": "var", "n": nm}
+        shapes = [{"o": "*", "a": V("a"), "b": V("r")}, {"o": "*", "a": V("a"), "b": {"o": "*", "a": V("r"), "b": V("r")}},
+                  {"o": "*", "a": V("a"), "b": {"o": "+", "a": V("r"), "b": {"o": "num", "v": 1.0}}}]
+        order = draw(st.permutations([0, 1, 2]))
+        for i in range(n):
+            t = draw(st.sampled_from(["setfl_fs", "DL_POLY_EAM_fs", "excel_eam_fs"]))
+            m = draw(gen.any_model([t], 2, 2, depth=0, tables=False, customs=False, pool=["Al", "Cu"]))
+            m["env"]["custom"] = [{"name": "densf", "params": ["r", "a"], "expr": shapes[order[i]]}]
+            leaf = lambda p: {"ranges": [{"m": None, "s": None, "body": {"k": "custom", "name": "densf", "p": [p]}}]}
+            m["density_fs"] = [e for e in m["density_fs"] if (e[0], e[1]) not in (("Al", "Cu"), ("Cu", "Al"))] + [
+                ["Al", "Cu", leaf(3)], ["Cu", "Al", leaf(2)]]
+            m["pair"] = [e for e in m["pair"] if set((e[0], e[1])) != {"Al", "Cu"}] + [["Al", "Cu", leaf(1.5)]]
+            ms.append(m)
     elif stratum == "underspecified":
         for i in range(n):
             t = draw(st.sampled_from(["setfl", "DL_POLY_EAM", "setfl_fs", "DL_POLY_EAM_fs", "excel_eam", "eam_adp"]))
@@ -228,7 +244,7 @@ def strategy(tier):
 
 
 def strata(tier):
-    return [("mixed", _case("mixed"), 4), ("shared_names", _case("shared_names"), 2.5), ("shared_caller", _case("shared_caller"), 2), ("underspecified", _case("underspecified"), 3),
+    return [("mixed", _case("mixed"), 4), ("shared_names", _case("shared_names"), 2.5), ("shared_caller", _case("shared_caller"), 2), ("fs_same_entries", _case("fs_same_entries"), 1.5), ("underspecified", _case("underspecified"), 3),
             ("failing_evals", _case("failing_evals"), 3), ("nested_forms", _case("nested_forms"), 3),
             ("shared_elements", _case("shared_elements"), 2)]
 
